@@ -164,6 +164,11 @@ func (t *Trailer) SetTrailers(trailers []byte) (err error) {
 			trailerKey = trailerKey[:len(trailerKey)-1]
 		}
 
+		// empty list elements are ignored (RFC 7230, Section 7)
+		if len(trailerKey) == 0 {
+			continue
+		}
+
 		utils.NormalizeHeaderKey(trailerKey, t.disableNormalizing)
 		err = t.addArgBytes(trailerKey, nil, argsNoValue)
 	}
@@ -186,6 +191,10 @@ func (t *Trailer) AppendBytes(dst []byte) []byte {
 }
 
 func IsBadTrailer(key []byte) bool {
+	// an empty name is never a valid trailer field
+	if len(key) == 0 {
+		return true
+	}
 	switch key[0] | 0x20 {
 	case 'a':
 		return utils.CaseInsensitiveCompare(key, bytestr.StrAuthorization)
